@@ -358,6 +358,15 @@ def assemble(static, state):
     return tot
 
 
+def assemble_abs(static, state):
+    """sum of the ABSOLUTE values of all messages addressed to each node: the magnitude against which
+    a rounding error of the sum has to be judged (messages of both signs can cancel)"""
+    st = dict(state)
+    for k in ("edge", "block", "node"):
+        st[k] = np.abs(np.asarray(state[k], dtype=float))
+    return assemble(static, st)
+
+
 def close(a, b, rtol=1e-9, atol=0.0):
     a = np.asarray(a, dtype=float)
     b = np.asarray(b, dtype=float)
